@@ -2,6 +2,7 @@
 import subprocess
 
 from .. import build, gen, run
+from .c08 import stat_all
 
 id = "C09"
 area = "parse"
@@ -36,7 +37,7 @@ STYLES = {"brace": None, "sep": "[ ] = #", "bar": "|x| = #", "enc": "{x} = #"}
 
 
 def corpus(chk):
-    return gen.corpus(id)
+    return stat_all(gen.corpus(id))
 
 
 def hx(s):
@@ -264,7 +265,7 @@ def onequote(tier, seed):
 
 
 def scripts(tier, seed, scale=1):
-    return exhaustive(tier) + random_forests(tier, seed, scale) + dotted(tier) + onequote(tier, seed)
+    return stat_all(exhaustive(tier) + random_forests(tier, seed, scale) + dotted(tier) + onequote(tier, seed))
 
 
 def nontrivial(script, c_lines):
@@ -323,10 +324,14 @@ class _XX:
 
     @staticmethod
     def corpus(chk):
-        return [(n, s) for n, s in gen.corpus(id) if s and s[0].startswith("x ")]
+        return stat_all([(n, s) for n, s in gen.corpus(id) if s and s[0].startswith("x ")])
 
     @staticmethod
     def scripts(tier, seed, scale=1):
+        return stat_all(_XX._scripts(tier, seed, scale))
+
+    @staticmethod
+    def _scripts(tier, seed, scale=1):
         out = []
         r = gen.rng(id, tier, seed, "xx")
         forests = []
